@@ -23,8 +23,8 @@ const HolePrefix = "hv"
 type Mined struct {
 	Kind   ref.PKind
 	Holes  map[string]ref.HoleKind
-	Minus  ast.Node   // pattern AST with hole identifiers and DOTS__n placeholders (for PStmts: *ast.BlockStmt holding the run)
-	Plus   ast.Node   // same shape for the plus side
+	Minus  ast.Node // pattern AST with hole identifiers and DOTS__n placeholders (for PStmts: *ast.BlockStmt holding the run)
+	Plus   ast.Node // same shape for the plus side
 	Fset   *token.FileSet
 	Dots   map[string]DotsInfo // by placeholder id
 	Edits  []string            // what the plus side changes
